@@ -200,7 +200,18 @@ func runC18(r *Run) {
 			iv = PickOne(rng, []time.Duration{0, 0, -time.Second})
 		}
 		s := htypes.Settings{ExecutionMinInterval: iv, ExecutionBurst: b}
-		lim := hook.CreateRateLimiter(&config.HookConfig{Settings: &s})
+		cfg := &config.HookConfig{Settings: &s}
+		if rng.Chance(20) {
+			// the same settings written in a hook configuration and loaded by the real loader
+			text := fmt.Sprintf("configVersion: v1\nonStartup: 1\nsettings:\n  executionMinInterval: %s\n  executionBurst: %d\n", iv.String(), b)
+			cfg = &config.HookConfig{}
+			if err := cfg.LoadAndValidate([]byte(text)); err != nil {
+				c.Op(fmt.Sprintf("settings i=%d b=%d", int64(iv), b), "load-error")
+				return
+			}
+			c.Note("settings:loaded")
+		}
+		lim := hook.CreateRateLimiter(cfg)
 		c.Op(fmt.Sprintf("settings i=%d b=%d", int64(iv), b), c18LimLine(lim))
 		n := rng.Range(20, r.N(80, 100))
 		gi := iv
@@ -283,15 +294,15 @@ func runC18(r *Run) {
 			}
 			// A start may lag its grant (timer lateness), never precede it. With lateness <= 40 ms any k
 			// intervals between starts still span >= k*(I-40ms), so the bound is checked for the
-			// shortened interval (a generous margin). A trace that fails even that but passes for I/2
-			// is inconclusive (loaded machine); one that fails for I/2 as well is reported.
+			// shortened interval (a generous margin). A trace that fails even that but passes for I/4
+			// is inconclusive (loaded machine); one that fails for I/4 as well is reported.
 			c.Note("kind:wall-clock")
 			c.Nontrivial = true
 			switch {
 			case c18BoundOK(int64(iv-40*time.Millisecond), int64(b), starts):
 				c.Oracle(fmt.Sprintf("bound I=%d B=%d starts=%s", int64(iv-40*time.Millisecond), b, joinI64(starts)))
-			case !c18BoundOK(int64(iv/2), int64(b), starts):
-				c.Oracle(fmt.Sprintf("bound I=%d B=%d starts=%s", int64(iv/2), b, joinI64(starts)))
+			case !c18BoundOK(int64(iv/4), int64(b), starts):
+				c.Oracle(fmt.Sprintf("bound I=%d B=%d starts=%s", int64(iv/4), b, joinI64(starts)))
 			default:
 				c.Inconcl = "wall-clock starts lag their grants by more than the 40 ms allowance"
 			}
@@ -401,8 +412,8 @@ func runC18(r *Run) {
 		switch {
 		case c18BoundOK(int64(iv-allow), int64(b), starts):
 			c.Oracle(fmt.Sprintf("bound I=%d B=%d starts=%s", int64(iv-allow), b, joinI64(starts)))
-		case !c18BoundOK(int64(iv/2), int64(b), starts):
-			c.Oracle(fmt.Sprintf("bound I=%d B=%d starts=%s", int64(iv/2), b, joinI64(starts)))
+		case !c18BoundOK(int64(iv/4), int64(b), starts):
+			c.Oracle(fmt.Sprintf("bound I=%d B=%d starts=%s", int64(iv/4), b, joinI64(starts)))
 		default:
 			c.Inconcl = "hook processes started more than 120 ms after their grants"
 		}
